@@ -368,3 +368,110 @@ func H_C09_reuse() {
 	}
 	verif.Reach("end")
 }
+
+// H_C09_pipes: {k|number} parses decimal text (and only that), {k|string}
+// renders integers without a fraction and other numbers with six decimals.
+func H_C09_pipes() {
+	form := verif.Choose("form", 2)
+	if form == 0 {
+		txt := verif.Str("txt", 3+verif.Tier(), "0189.x-")
+		doc := Map{"o": Map{"v": txt, "w": float64(2)}}
+		v, err, pan := tryCall(func() (any, error) { return ExecReader(doc, "o{v|number, w}") })
+		verif.Assert(!pan, "no-panic")
+		if pan {
+			return
+		}
+		want, perr := parseDecimal(txt)
+		if perr {
+			verif.Assert(err != nil, "non-decimal-is-error")
+		} else {
+			verif.Assert(err == nil, "no-error")
+			if err == nil {
+				verif.Assert(verif.Eq(v, Map{"v": want, "w": float64(2)}), "value")
+			}
+		}
+		verif.Reach("end")
+		return
+	}
+	k := verif.IntRange("k", -6, 9)
+	x := float64(k) / 2
+	doc := Map{"o": Map{"v": x, "s": "t"}}
+	v, err, pan := tryCall(func() (any, error) { return ExecReader(doc, "o{v|string, s|string}") })
+	verif.Assert(!pan && err == nil, "no-error")
+	if pan || err != nil {
+		return
+	}
+	var text string
+	if k%2 == 0 {
+		text = itoaG(k / 2)
+	} else {
+		h := k / 2 // truncates toward zero
+		if k < 0 && h == 0 {
+			text = "-0.500000"
+		} else {
+			text = itoaG(h) + ".500000"
+		}
+	}
+	verif.Assert(verif.Eq(v, Map{"v": text, "s": "t"}), "value")
+	verif.Reach("end")
+}
+
+// parseDecimal is the reference for {k|number}: Go's decimal float syntax
+// restricted to the harness alphabet (digits, '.', '-', and the letter x
+// which never belongs to a decimal number).
+func parseDecimal(s string) (float64, bool) {
+	i := 0
+	neg := false
+	if i < len(s) && s[i] == '-' {
+		neg = true
+		i++
+	}
+	digits, dot, frac := 0, false, 0
+	mant := float64(0)
+	for ; i < len(s); i++ {
+		c := s[i]
+		switch {
+		case c >= '0' && c <= '9':
+			mant = mant*10 + float64(c-'0')
+			digits++
+			if dot {
+				frac++
+			}
+		case c == '.' && !dot:
+			dot = true
+		default:
+			return 0, true
+		}
+	}
+	if digits == 0 {
+		return 0, true
+	}
+	pow := float64(1)
+	for ; frac > 0; frac-- {
+		pow *= 10
+	}
+	mant /= pow // both exact: one correctly rounded division
+	if neg {
+		mant = -1 * mant
+	}
+	return mant, false
+}
+
+func itoaG(n int) string {
+	if n == 0 {
+		return "0"
+	}
+	neg := n < 0
+	if neg {
+		n = -n
+	}
+	s := ""
+	for n > 0 {
+		s = string(rune('0'+n%10)) + s
+		n /= 10
+	}
+	if neg {
+		s = "-" + s
+	}
+	return s
+}
